@@ -639,7 +639,7 @@ func (cs *ContractSet) loadContractFile(path, pkgPath string) error {
 					cur.Modifies = append(cur.Modifies, m)
 				}
 			}
-		case "pure", "trusted", "inline", "lemma", "noinline", "opaque", "entry", "safety_off", "lockbalance":
+		case "pure", "trusted", "inline", "lemma", "noinline", "opaque", "entry", "safety_off", "lockbalance", "calls_havoc":
 			if cur == nil {
 				return fail(fmt.Errorf("%s outside func", word))
 			}
